@@ -66,7 +66,8 @@ def scen_spec(name):
         sp["pps"][0]["goal"]["states"][0]["attrs"]["position"] = speclib.lanelet_goal_shape(sp, [1])
         sp["pps"][0]["goal"]["states"][1]["attrs"]["position"] = ["circle", 3.0, 30.0, 2.0]
         sp["obstacles"] = [o for o in sp["obstacles"] if o["id"] != 33]
-        sp["sid"] = {"country": "DEU", "map": "Other", "map_id": 2, "conf": 1, "beh": "T", "pred": 1}
+        sp["sid"] = {"country": "DEU", "map": "Other", "map_id": 2, "conf": 1, "beh": "T", "pred": 1, "ver": "2018b"}
+        sp["location"] = None           # no location anywhere: the writers fall back to their default
         sp["pps"][0]["initial_state"]["attrs"]["velocity"] = 7.0123456789012
     return sp
 
@@ -299,6 +300,8 @@ def check(world, model, model2, op, obs, pre):
                 p, kk = roundtrip.classify(path, kind)
                 if p == "network.signs.*.virtual":
                     continue        # C01's known finding, not a writer-state issue
+                if p == "version" and fmt == "xml":
+                    continue        # an XML file is always written in (and read as) the current format version
                 out.append((f"C15|{o['method']}|{fmt}|readback-differs:{p}:{kk}", f"{op}: {path}: {detail}"))
                 break
         except Exception as e:
